@@ -762,3 +762,87 @@ Proof.
   - intros lm l. apply parse_data_line_classes; assumption.
   - intros lm l. apply parse_data_line_list_typed.
 Qed.
+
+(* ---- reading the dispatcher's except clauses as regenerated by tools/py2v (Gen/Dispatch.v) ----
+   Fail closed: a class or an action list this reader does not know makes the whole ladder None.
+   The inner `try` (around task.result()) is tried first; what it does not catch reaches the
+   outer `try` around the loop, so the ladder is their concatenation. *)
+From Coq Require Import String.
+Local Open Scope string_scope.
+
+Definition class_of_string (s : string) : option handler_class :=
+  if String.eqb s "errors.PathIOError" then Some HPathIOError
+  else if String.eqb s "asyncio.CancelledError" then Some HCancelledError
+  else if String.eqb s "Exception" then Some HException
+  else if String.eqb s "BaseException" then Some HBaseException
+  else None.
+
+Definition reaction_of_actions (acts : list string) : option reaction :=
+  match acts with
+  | ["response:451"; "continue"] => Some RContinue451
+  | ["raise"] => Some RReraise
+  | ["log"] => Some REndSession       (* nothing but logging: control falls into `finally` *)
+  | _ => None
+  end.
+
+Fixpoint ladder_of_clauses (cl : list (string * list string)) : option ladder :=
+  match cl with
+  | [] => Some []
+  | (c, a) :: r =>
+      match class_of_string c, reaction_of_actions a, ladder_of_clauses r with
+      | Some h, Some x, Some l => Some ((h, x) :: l)
+      | _, _, _ => None
+      end
+  end.
+
+Definition ladder_of_facts (task_except outer_except : list (string * list string)) : option ladder :=
+  ladder_of_clauses (task_except ++ outer_except).
+
+(* the `finally` block unregisters the session and closes its control stream *)
+Definition finally_releases (fin : list string) : bool :=
+  existsb (String.eqb "=>pop:connections") fin && existsb (String.eqb "loop_open=>close:control") fin.
+
+Definition dispatcher_contains (task_except outer_except : list (string * list string))
+           (fin : list string) : bool :=
+  match ladder_of_facts task_except outer_except with
+  | Some l => ladder_contains l && finally_releases fin
+  | None => false
+  end.
+
+(* the soundness of the closed check: it yields a ladder the containment theorem applies to *)
+Lemma dispatcher_contains_sound te oe fin :
+  dispatcher_contains te oe fin = true ->
+  exists l, ladder_of_facts te oe = Some l /\ ladder_contains l = true /\ finally_releases fin = true.
+Proof.
+  unfold dispatcher_contains. destruct (ladder_of_facts te oe) as [l|]; [|discriminate].
+  intro H. apply andb_true_iff in H as [H1 H2]. exists l. auto.
+Qed.
+
+Theorem server_line_contained_gen te oe fin :
+  dispatcher_contains te oe fin = true ->
+  exists lad, ladder_of_facts te oe = Some lad /\
+  forall (S : Type) (handle : S -> text -> text -> option S) dec limit (srv : sessions S) sid ls,
+  exists srv', deliver S handle lad dec limit srv sid ls = Served S srv'
+    /\ (forall sid', sid' <> sid -> find_session S sid' srv' = find_session S sid' srv)
+    /\ (forall e, server_parse_command dec limit ls = CmdExc e -> find_session S sid srv' = None).
+Proof.
+  intro H. destruct (dispatcher_contains_sound _ _ _ H) as [l [H1 [H2 _]]].
+  exists l. split; [exact H1|]. intros. apply server_line_contained. exact H2.
+Qed.
+
+(* the reader is not vacuous: dropping the catch-all, or a catch-all that re-raises, fails it *)
+Example dispatcher_without_catch_all :
+  dispatcher_contains [("errors.PathIOError", ["response:451"; "continue"])]
+                      [("asyncio.CancelledError", ["raise"])]
+                      ["=>pop:connections"; "loop_open=>close:control"] = false.
+Proof. reflexivity. Qed.
+Example dispatcher_reraising_catch_all :
+  dispatcher_contains [] [("Exception", ["raise"])] ["=>pop:connections"; "loop_open=>close:control"] = false.
+Proof. reflexivity. Qed.
+Example dispatcher_without_pop :
+  dispatcher_contains [] [("Exception", ["log"])] ["loop_open=>close:control"] = false.
+Proof. reflexivity. Qed.
+Example ladder_as_read_is_todays :
+  ladder_of_facts [("errors.PathIOError", ["response:451"; "continue"])]
+                  [("asyncio.CancelledError", ["raise"]); ("Exception", ["log"])] = Some ladder_as_read.
+Proof. reflexivity. Qed.
